@@ -204,6 +204,35 @@ def run(ck):
             role = 'other:' + short(fp)
         roles.setdefault(role, 0)
         roles[role] += 1
+    # the two selections (and the attached leftover) filter on nothing but the predicate
+    for fn, n, negated in sites:
+        if fn['path'] not in ('uigen::build', 'uigen::binding::UiSupportCode::build'):
+            continue
+        # the iterator chain that contains this predicate call
+        chain_root = None
+        for anc in H.ancestors(fn, n):
+            if anc.get('k') == 'For':
+                chain_root = anc['iter']
+                break
+            if anc.get('k') in ('Let', 'Semi', 'Expr'):
+                chain_root = anc.get('init') or anc.get('e')
+                break
+        if chain_root is None:
+            ck.ob('R14.4', 'selection-chain|%s' % short(fn['path']), False, L.loc(n), 'could not find the iterator chain of the selection')
+            continue
+        filters = [c for c in H.calls_in(chain_root, enter_closures=False) if c.get('m') in ('filter', 'filter_map', 'skip', 'take', 'skip_while', 'take_while', 'step_by')]
+        pure = []
+        for c in filters:
+            cl = c['args'][0] if c['args'] and c['args'][0].get('k') == 'Closure' else None
+            v = list(H.value_exprs(cl['body'])) if cl is not None else []
+            is_pred = (c.get('m') == 'filter' and len(v) == 1 and v[0].get('k') == 'Unary' and v[0].get('op') == 'Not' and v[0]['e'].get('k') == 'MCall'
+                       and (H.callee(v[0]['e']) == pred or H.callee_decl(v[0]['e']) == pred))
+            pure.append(is_pred)
+        in_mode = fn['path'] == 'uigen::build' and any(any(x is n for x in walk(mm)) for mm in mode_matches)
+        role = 'generate' if fn['path'].endswith('UiSupportCode::build') else ('reject' if in_mode else 'attached-leftover')
+        ck.ob('R14.4', 'selection-filters-only-on-predicate|%s' % role, bool(pure) and all(pure), L.loc(n),
+              'the selection chain has %d restricting adaptor(s), all of them filter(|p| !p.is_evaluated_constant())' % len(pure) if pure and all(pure) else
+              'the %s selection restricts with something other than !is_evaluated_constant(): %s' % (role, pp(chain_root, maxlen=160)))
     for need in ('reject-selection', 'generate-selection', 'attached-leftover'):
         ck.ob('R14.4', 'has|%s' % need, roles.get(need, 0) >= 1, '', 'predicate used for %s: %d site(s)' % (need, roles.get(need, 0)))
     ck.extra['is_evaluated_constant_roles'] = roles
@@ -273,3 +302,43 @@ def run(ck):
     for crate in (F.lib, F.bin, F.cli):
         has = any('forbid' in a and 'unsafe_code' in a for a in crate.crate_attrs)
         ck.ob('R14.3', 'forbid-unsafe|%s' % crate.tag, has, '', '#![forbid(unsafe_code)] present' if has else 'crate does not forbid unsafe code')
+
+    # ---- R14.6 generate-side translation failures are diagnosed (a silently dropped binding would make generate accept
+    #      a document that reject refuses) ----
+    import nonediag
+    import panicsites
+    from core import load_table
+    ck.rule('R14.6', 'a binding that generate mode cannot translate is diagnosed, never dropped silently')
+    table = {r['key']: r for r in load_table('none_sources.json')['rows']}
+    A = nonediag.Analysis(L, panicsites.DERIVES, table)
+    n_u = 0
+    for p, u in sorted(A.units.items()):
+        if not p.startswith('uigen::binding::'):
+            continue
+        n_u += 1
+        bad = [o for o in u.origins if o['status'] == 'open']
+        ck.ob('R14.6', 'diagnosed|%s' % short(p), p in A.S and not bad, L.loc(u.body),
+              'every None of this unit is diagnosed' if (p in A.S and not bad) else
+              'silent None in the generate pass: %s' % '; '.join('%s at %s' % (o['detail'][:100], L.loc(o['node'])) for o in bad[:2]) or 'a callee has a silent None', fn=u.fn['path'])
+    ck.floor('R14.6', n_u, 3, 'Option-returning units in uigen::binding')
+
+    # ---- R14.7 the header is written whenever support code exists: no early success return in generate_ui_file ----
+    ck.rule('R14.7', 'in generate mode the header write is reached whenever the form was serialized (no early Ok return)')
+    guf = F.bin.fn('generate_ui_file')
+    if guf is None:
+        ck.floor('R14.7', 0, 1, 'fn generate_ui_file')
+    else:
+        early = [r for r in walk(guf['body']) if r.get('k') == 'Ret' and r.get('e', {}).get('k') == 'Call' and (r['e'].get('def') or '').endswith('Result::Ok')]
+        ck.ob('R14.7', 'no-early-success-return', not early, F.bin.loc(early[0]) if early else F.bin.loc(guf['body']),
+              'generate_ui_file only returns Ok at its end' if not early else 'an early `return Ok(..)` can skip the support-header write')
+        hw = [c for c in H.calls_in(guf['body']) if c.get('m') == 'write_header']
+        ok = False
+        if hw:
+            for anc in H.ancestors(guf, hw[0]):
+                if anc.get('k') == 'If' and anc['c'].get('k') == 'LetCond' and pp(anc['c']['pat']).startswith('Some('):
+                    # the if-let is a direct statement of the fn body block (not nested in another condition)
+                    par = H.parents(guf).get(id(anc))
+                    while par is not None and par.get('k') in ('Semi', 'Expr'):
+                        par = H.parents(guf).get(id(par))
+                    ok = par is guf['body']
+        ck.ob('R14.7', 'header-block-unconditional', ok, F.bin.loc(hw[0]) if hw else '', '`if let Some(ui_support) = ..` is a top-level statement of generate_ui_file')
